@@ -10,6 +10,8 @@
 package main
 
 import (
+	"encoding/asn1"
+	"net/url"
 	"math/big"
 	"bytes"
 	"context"
@@ -43,6 +45,8 @@ import (
 	"go.step.sm/crypto/jose"
 	"go.step.sm/crypto/x509util"
 
+	wireid "github.com/smallstep/certificates/acme/wire"
+
 	"github.com/smallstep/certificates/acme"
 	acmeapi "github.com/smallstep/certificates/acme/api"
 	acmenosql "github.com/smallstep/certificates/acme/db/nosql"
@@ -52,6 +56,8 @@ import (
 	"verif/harness/cmd/c12/acmeenv"
 	"verif/harness/fixture"
 )
+
+var oidDisplayName = asn1.ObjectIdentifier{2, 16, 840, 1, 113730, 3, 1, 241}
 
 // ---------- case ----------
 
@@ -68,6 +74,7 @@ type Op struct {
 	Fail bool     // f: the final UpdateOrder fails
 	// storage fault for the duration of this request: every update write of challenge ("c"),
 	// authorization ("a") or order ("o") number DenyObj fails
+	// "x": the DenyObj-th create write of the request fails; "i": the order index write; "k": the Wire token write
 	Deny    string `json:",omitempty"`
 	DenyObj int    `json:",omitempty"`
 }
@@ -217,6 +224,7 @@ type world struct {
 	ordExp  []int
 	azCh    [][]int
 	azExp   []int
+	azAcct  []int
 	faulty  bool // a storage fault was injected earlier in this history
 	// challenges for which a successful device-attest-01 response was sent through the URL of an
 	// authorization they do not belong to (D15)
@@ -238,7 +246,7 @@ func newWorld(dir string) (*world, error) {
 	if err != nil {
 		return nil, err
 	}
-	w := &world{raw: raw, sh: &shiftDB{DB: raw}, linker: acme.NewLinker("ca.verif.test", "acme")}
+	w := &world{raw: raw, sh: &shiftDB{DB: raw, createFail: -1}, linker: acme.NewLinker("ca.verif.test", "acme")}
 	if w.db, err = acmenosql.New(w.sh); err != nil {
 		raw.Close()
 		return nil, err
@@ -334,7 +342,7 @@ func errResp(kind string, body []byte) string {
 		}
 		return "err:rejectedIdentifier"
 	case "malformed":
-		if kind == "n" {
+		if kind == "n" || kind == "f" { // f: the token of a Wire order is not there
 			return "malformed"
 		}
 		return "notfound"
@@ -346,19 +354,55 @@ func errResp(kind string, body []byte) string {
 }
 
 func (w *world) csr(o int, how string, keyNo int) (*x509.CertificateRequest, []byte, error) {
-	tmpl := &x509.CertificateRequest{}
 	var ids []string
 	if o >= 0 && o < len(w.ids) {
 		ids = w.ids[o]
 	}
+	return buildCSR(ids, how, keyNo)
+}
+
+// buildCSR: the CSR a client sends for an order with these identifiers
+func buildCSR(ids []string, how string, keyNo int) (*x509.CertificateRequest, []byte, error) {
+	tmpl := &x509.CertificateRequest{}
+	isWireOrder := false
 	for _, id := range ids {
 		t, v, _ := strings.Cut(id, ":")
 		switch t {
 		case "ip":
 			tmpl.IPAddresses = append(tmpl.IPAddresses, net.ParseIP(v))
-		case "permanent-identifier", "wireapp-user", "wireapp-device":
+		case "permanent-identifier":
+		case "wireapp-user":
+			// a well-formed Wire subject (display name attribute, Organization = domain) and the handle URI
+			isWireOrder = true
+			if u, err := wireid.ParseUserID(v); err == nil {
+				tmpl.Subject.Organization = []string{u.Domain}
+				tmpl.Subject.ExtraNames = append(tmpl.Subject.ExtraNames, pkix.AttributeTypeAndValue{Type: oidDisplayName, Value: u.Name})
+				if x, err := url.Parse(u.Handle); err == nil {
+					tmpl.URIs = append(tmpl.URIs, x)
+				}
+			}
+		case "wireapp-device":
+			isWireOrder = true
+			if dv, err := wireid.ParseDeviceID(v); err == nil {
+				if x, err := url.Parse(dv.ClientID); err == nil {
+					tmpl.URIs = append(tmpl.URIs, x)
+				}
+			}
 		default:
 			tmpl.DNSNames = append(tmpl.DNSNames, v)
+		}
+	}
+	if isWireOrder {
+		switch how {
+		case "extra":
+			x, _ := url.Parse("wireapp://%40mallory@wire.com")
+			tmpl.URIs = append(tmpl.URIs, x)
+			how = "match"
+		case "missing":
+			if len(tmpl.URIs) > 0 {
+				tmpl.URIs = tmpl.URIs[1:]
+			}
+			how = "match"
 		}
 	}
 	key := csrKey
@@ -404,8 +448,12 @@ func (w *world) csrOK(o int, csr *x509.CertificateRequest) bool {
 	if o < 0 || o >= len(w.ids) {
 		return false
 	}
+	return csrMatchesIDs(w.ids[o], csr)
+}
+
+func csrMatchesIDs(ids []string, csr *x509.CertificateRequest) bool {
 	ord := &acme.Order{}
-	for _, id := range w.ids[o] {
+	for _, id := range ids {
 		t, v, _ := strings.Cut(id, ":")
 		ord.Identifiers = append(ord.Identifiers, acme.Identifier{Type: acme.IdentifierType(t), Value: v})
 	}
@@ -464,6 +512,7 @@ func (w *world) discover(ctx context.Context, ids []string) {
 			azs = append(azs, len(w.authzs))
 			w.authzs = append(w.authzs, azID)
 			w.azExp = append(w.azExp, virt(az.ExpiresAt))
+			w.azAcct = append(w.azAcct, acct)
 			var chs []int
 			for _, ch := range az.Challenges {
 				chs = append(chs, len(w.chals))
@@ -473,6 +522,44 @@ func (w *world) discover(ctx context.Context, ids []string) {
 			w.azCh = append(w.azCh, chs)
 		}
 		w.ordAz = append(w.ordAz, azs)
+	}
+}
+
+// orphans numbers the challenges and authorizations the last request stored without an order that
+// refers to them (a create write or the index write failed), in the order they were created
+func (w *world) orphans(ctx context.Context) {
+	for _, ck := range w.sh.created {
+		switch ck.tbl {
+		case "acme_challenges":
+			if index(w.chals, ck.key) < 0 {
+				typ := acme.ChallengeType("")
+				if x, err := w.db.GetChallenge(ctx, ck.key, ""); err == nil {
+					typ = x.Type
+				}
+				w.chals = append(w.chals, ck.key)
+				w.chTyp = append(w.chTyp, typ)
+			}
+		case "acme_authzs":
+			if index(w.authzs, ck.key) < 0 {
+				var chs []int
+				exp, owner := 0, -1
+				if az, err := w.db.GetAuthorization(ctx, ck.key); err == nil {
+					for i, a := range w.accs {
+						if a.ID == az.AccountID {
+							owner = i
+						}
+					}
+					exp = int(az.ExpiresAt.Add(w.sh.off).Sub(w.t0) / time.Second)
+					for _, ch := range az.Challenges {
+						chs = append(chs, index(w.chals, ch.ID))
+					}
+				}
+				w.authzs = append(w.authzs, ck.key)
+				w.azExp = append(w.azExp, exp)
+				w.azAcct = append(w.azAcct, owner)
+				w.azCh = append(w.azCh, chs)
+			}
+		}
 	}
 }
 
@@ -592,12 +679,8 @@ func (w *world) oracle(op Op, csrOK bool, prev, cur string) string {
 		}
 		if was != is {
 			owner := -1
-			for o, azs := range w.ordAz {
-				for _, x := range azs {
-					if x == a {
-						owner = w.ordAcct[o]
-					}
-				}
+			if a < len(w.azAcct) {
+				owner = w.azAcct[a]
 			}
 			if op.K != "t" || owner != op.Acct {
 				return "VIOL:fingerprint-foreign-account"
@@ -664,6 +747,20 @@ func (w *world) oracle(op Op, csrOK bool, prev, cur string) string {
 				allValid && op.Now <= w.ordExp[i] && (was == 'r' || was == 'p') && grew) {
 				return "VIOL:order-valid-cause"
 			}
+			// a Wire order is finalized only with an OIDC and a DPoP token filed under it (wire_order_valid_tokens)
+			isWireOrder := false
+			for _, id := range w.ids[i] {
+				isWireOrder = isWireOrder || strings.HasPrefix(id, "wireapp-")
+			}
+			if isWireOrder {
+				tk := ""
+				if len(pf) > 4 {
+					tk = "." + pf[4] + "."
+				}
+				if !strings.Contains(tk, fmt.Sprintf(".o%d.", i)) || !strings.Contains(tk, fmt.Sprintf(".d%d.", i)) {
+					return "VIOL:wire-order-valid-without-tokens"
+				}
+			}
 			// C13 end to end: a certificate is issued only when every identifier of the order was validated:
 			// each of the order's authorizations has a challenge whose proof was in place and accepted
 			for _, a := range w.ordAz[i] {
@@ -727,13 +824,15 @@ func (w *world) oracle(op Op, csrOK bool, prev, cur string) string {
 // IP, permanent identifier, common name) is the value one of the order's authorizations was
 // created for (what its challenges validated; `*.x` for a dns authorization flagged wildcard), and
 // every authorization's value is in the leaf; no e-mail or URI names.
-func (w *world) certNames(i int) string {
+func (w *world) certNames(i int) string { return certNamesOf(w.db, w.orders[i]) }
+
+func certNamesOf(db acme.DB, orderID string) string {
 	bg := context.Background()
-	o, err := w.db.GetOrder(bg, w.orders[i])
+	o, err := db.GetOrder(bg, orderID)
 	if err != nil || o.CertificateID == "" {
 		return "VIOL:certificate-unreadable"
 	}
-	crt, err := w.db.GetCertificate(bg, o.CertificateID)
+	crt, err := db.GetCertificate(bg, o.CertificateID)
 	if err != nil || crt.Leaf == nil {
 		return "VIOL:certificate-unreadable"
 	}
@@ -743,8 +842,12 @@ func (w *world) certNames(i int) string {
 	}
 	type val struct{ typ, v string }
 	var have []val
+	isWire, wireCN := false, ""
+	if os.Getenv("VERIF_C10_DEBUG") != "" {
+		fmt.Fprintf(os.Stderr, "debug: leaf CN=%q O=%v dns=%q uris=%v ips=%v\n", crt.Leaf.Subject.CommonName, crt.Leaf.Subject.Organization, all.DNSNames, all.URIs, all.IPAddresses)
+	}
 	for _, azID := range o.AuthorizationIDs {
-		az, err := w.db.GetAuthorization(bg, azID)
+		az, err := db.GetAuthorization(bg, azID)
 		if err != nil {
 			return "VIOL:certificate-unreadable"
 		}
@@ -752,7 +855,21 @@ func (w *world) certNames(i int) string {
 		if az.Wildcard && az.Identifier.Type == acme.DNS {
 			v = "*." + v
 		}
-		have = append(have, val{string(az.Identifier.Type), v})
+		switch az.Identifier.Type {
+		case acme.WireUser: // what wire-oidc-01 validated: the handle (a URI name) and the display name (the subject)
+			isWire = true
+			if u, err := wireid.ParseUserID(v); err == nil {
+				have = append(have, val{"uri", u.Handle})
+				wireCN = u.Name
+			}
+		case acme.WireDevice: // wire-dpop-01: the client id
+			isWire = true
+			if dv, err := wireid.ParseDeviceID(v); err == nil {
+				have = append(have, val{"uri", dv.ClientID})
+			}
+		default:
+			have = append(have, val{string(az.Identifier.Type), v})
+		}
 	}
 	used := make([]bool, len(have))
 	find := func(typ string, eq func(string) bool) bool {
@@ -775,6 +892,9 @@ func (w *world) certNames(i int) string {
 	}
 	for _, d := range all.DNSNames {
 		if !find("dns", func(v string) bool { return lower(v) == lower(d) }) {
+			if isWire && d == "" {
+				return "VIOL:certificate-name-not-validated:wire-empty-san" // C13-F3
+			}
 			return "VIOL:certificate-name-not-validated"
 		}
 	}
@@ -791,10 +911,19 @@ func (w *world) certNames(i int) string {
 			return "VIOL:certificate-name-not-validated"
 		}
 	}
-	if len(all.EmailAddresses)+len(all.URIs) > 0 {
+	for _, u := range all.URIs {
+		if !find("uri", func(v string) bool { x, err := url.Parse(v); return err == nil && x.String() == u.String() }) {
+			return "VIOL:certificate-name-not-validated"
+		}
+	}
+	if len(all.EmailAddresses) > 0 {
 		return "VIOL:certificate-name-not-validated"
 	}
-	if cn := crt.Leaf.Subject.CommonName; cn != "" {
+	if cn := crt.Leaf.Subject.CommonName; isWire {
+		if cn != wireCN {
+			return "VIOL:certificate-name-not-validated"
+		}
+	} else if cn != "" {
 		ok := false
 		for _, h := range have {
 			ok = ok || lower(h.v) == lower(cn) || (h.typ == "ip" && net.ParseIP(cn) != nil && net.ParseIP(cn).Equal(net.ParseIP(h.v)))
@@ -830,7 +959,14 @@ func (w *world) exec(op Op, prev string) (tok, out, dump string, err error) {
 	w.sh.off = w.t0.Add(time.Duration(op.Now) * time.Second).Sub(realNow)
 	w.sh.failOrderValid, w.sh.failChallenge = false, false
 	w.sh.denyTbl, w.sh.denyKey = nil, nil
+	w.sh.createFail, w.sh.creates, w.sh.created, w.sh.denyIndex, w.sh.denyToken = -1, 0, nil, false, false
 	switch op.Deny {
+	case "x":
+		w.sh.createFail = op.DenyObj
+	case "i":
+		w.sh.denyIndex = true
+	case "k":
+		w.sh.denyToken = true
 	case "c":
 		w.sh.denyTbl, w.sh.denyKey = chalTbl, []byte(w.id(w.chals, op.DenyObj))
 	case "a":
@@ -869,10 +1005,18 @@ func (w *world) exec(op Op, prev string) (tok, out, dump string, err error) {
 		if len(ks) > 0 {
 			k = strings.Join(ks, ".")
 		}
+		for _, id := range op.IDs {
+			if strings.HasPrefix(id, "wireapp-") {
+				k = "w" + k // a Wire order
+				break
+			}
+		}
 		tok = fmt.Sprintf("n:%d:%d:%s", op.Acct, op.Now, k)
 		payload, _ := json.Marshal(req)
 		code, body, crashed = call(acmeapi.NewOrder, w.ctx(op.Acct, payload, &client{}, nil))
+		w.sh.createFail, w.sh.denyIndex = -1, false
 		w.discover(bg, op.IDs)
+		w.orphans(bg)
 		if code == 201 {
 			var p problem
 			_ = json.Unmarshal(body, &p)
@@ -920,7 +1064,7 @@ func (w *world) exec(op Op, prev string) (tok, out, dump string, err error) {
 		payload := []byte("{}")
 		if x, err := w.db.GetChallenge(bg, id, ""); err == nil {
 			aud := w.linker.GetLink(w.ctx(op.Acct, nil, &client{}, nil), acme.ChallengeLinkType, azURL, id)
-			if p, perr := wirePayload(w.chTyp[op.Obj], op.How, op.Acct, x.Token, aud); perr == nil {
+			if p, perr := wirePayload(w.chTyp[op.Obj], op.How, privKeys[op.Acct], x.Value, x.Token, aud); perr == nil {
 				payload = p
 			} else {
 				return "", "", "", perr
@@ -1032,7 +1176,12 @@ func (w *world) exec(op Op, prev string) (tok, out, dump string, err error) {
 	}
 	w.sh.failOrderValid, w.sh.failChallenge = false, false
 	w.sh.denyTbl, w.sh.denyKey = nil, nil
-	if op.Deny != "" {
+	w.sh.createFail, w.sh.denyIndex, w.sh.denyToken = -1, false, false
+	switch op.Deny {
+	case "":
+	case "i", "k":
+		tok += "!" + op.Deny
+	default:
 		tok += fmt.Sprintf("!%s%d", op.Deny, op.DenyObj)
 	}
 	if os.Getenv("VERIF_C10_DEBUG") != "" {
@@ -1048,6 +1197,9 @@ func (w *world) exec(op Op, prev string) (tok, out, dump string, err error) {
 		resp = "ok-" + st(acme.Status(p.Status))
 	default:
 		resp = errResp(op.K, body)
+		if op.K == "f" && resp == "malformed" && (op.Obj < 0 || op.Obj >= len(w.orders)) {
+			resp = "notfound" // no such order (the same error type as a missing Wire token)
+		}
 	}
 	dump = w.dump(bg)
 	if (op.K == "r" || op.K == "w" || op.K == "t") && op.How == "ok" && op.Obj >= 0 && op.Obj < len(w.chals) {
@@ -1142,6 +1294,14 @@ type shadowOrder struct {
 	wire          bool    // a Wire order (one wireapp-user and one wireapp-device identifier)
 }
 
+func flat(l [][]int) []int {
+	var out []int
+	for _, x := range l {
+		out = append(out, x...)
+	}
+	return out
+}
+
 func genCase(r *c.Rng) *Case {
 	k := &Case{}
 	now := 0
@@ -1153,6 +1313,10 @@ func genCase(r *c.Rng) *Case {
 	// the order fail (the interesting point: an order is evaluated and a child write is lost)
 	deny := func(op Op, so shadowOrder, oi, firstAz int) Op {
 		if !fault || !r.Chance(1, 3) {
+			return op
+		}
+		if (op.K == "w" || op.K == "r" || op.K == "l") && r.Chance(1, 3) {
+			op.Deny = c.Pick(r, []string{"i", "k"})
 			return op
 		}
 		switch r.Intn(4) {
@@ -1186,7 +1350,7 @@ func genCase(r *c.Rng) *Case {
 		pidOrder := r.Chance(1, 6)
 		var wids []string
 		if !pidOrder && cnt > 0 && r.Chance(1, 6) {
-			wids, so.wire, cnt = wireIDs(), true, 2
+			wids, so.wire, cnt = wireIDs(r.Chance(1, 8)), true, 2
 		}
 		for i := 0; i < cnt; i++ {
 			id := c.Pick(r, idPool)
@@ -1210,7 +1374,42 @@ func genCase(r *c.Rng) *Case {
 			so.done = append(so.done, false)
 			nauthz++
 		}
-		k.Ops = append(k.Ops, Op{K: "n", Acct: acct, Now: now, IDs: ids})
+		nop := Op{K: "n", Acct: acct, Now: now, IDs: ids}
+		if fault && cnt > 0 && r.Chance(1, 4) {
+			// a create write (challenge / authorization / order; sometimes one past the last) or the index write fails
+			total := 1
+			for _, chs := range so.chals {
+				total += len(chs) + 1
+			}
+			if r.Chance(1, 4) {
+				nop.Deny = "i"
+			} else {
+				nop.Deny, nop.DenyObj = "x", r.Intn(total+1)
+			}
+			// the shadow numbering: what was created before the fault keeps its numbers, no order
+			if nop.Deny == "i" || nop.DenyObj < total {
+				created := total
+				if nop.Deny == "x" {
+					created = nop.DenyObj
+				}
+				nchal, nauthz = nchal-len(flat(so.chals)), nauthz-len(so.chals)
+				for _, chs := range so.chals {
+					for range chs {
+						if created > 0 {
+							nchal++
+							created--
+						}
+					}
+					if created > 0 {
+						nauthz++
+						created--
+					}
+				}
+				k.Ops = append(k.Ops, nop)
+				return
+			}
+		}
+		k.Ops = append(k.Ops, nop)
 		if cnt > 0 {
 			orders = append(orders, so)
 		}
@@ -1285,10 +1484,6 @@ func genCase(r *c.Rng) *Case {
 			case next >= 0:
 				so.done[next] = true
 				k.Ops = append(k.Ops, Op{K: "r", Acct: so.acct, Obj: so.chals[next][0], Now: now, How: "ok"})
-			case so.wire:
-				// (a ready Wire order is never finalized here: whether the token store has the two tokens
-				// under THIS order is not modelled; the names of a Wire certificate are C13's)
-				k.Ops = append(k.Ops, deny(Op{K: "o", Acct: so.acct, Obj: oi, Now: now}, so, oi, firstAzOf(orders, oi)))
 			default:
 				k.Ops = append(k.Ops, deny(Op{K: "f", Acct: so.acct, Obj: oi, Now: now, CSR: "match", Key: key, Fail: fault && r.Chance(1, 6)}, so, oi, firstAzOf(orders, oi)))
 			}
@@ -1347,7 +1542,7 @@ func genCase(r *c.Rng) *Case {
 			if r.Chance(1, 30) {
 				o = len(orders) + r.Intn(2)
 			}
-			if so.wire && o == oi { // see above: respond once more instead
+			if so.wire && o == oi && r.Chance(1, 2) { // respond once more to a (probably finished) Wire challenge
 				k.Ops = append(k.Ops, deny(Op{K: "w", Acct: so.acct, Obj: c.Pick(r, c.Pick(r, so.chals)), Now: now, How: c.Pick(r, []string{"ok", "ok", "mismatch", "status", "connerr"})}, so, oi, firstAzOf(orders, oi)))
 				break
 			}
@@ -1411,8 +1606,27 @@ func corner() []*Case {
 			{K: "w", Obj: 1, Now: 4, How: "mismatch"}, {K: "w", Obj: 1, Now: 5, How: "ok"}, {K: "a", Obj: 1, Now: 6}, {K: "o", Now: 7}}},
 		{Ops: []Op{{K: "n", IDs: wireIDs()}, {K: "n", Now: 1, IDs: []string{"dns:a.example.com"}}, {K: "r", Obj: 2, Now: 2, How: "ok"}, {K: "w", Obj: 1, Now: 3, How: "ok"}, {K: "w", Obj: 0, Now: 4, How: "ok"},
 			{K: "l", Now: 5}, {K: "w", Obj: 0, Now: 6, How: "garbage"}, {K: "w", Acct: 1, Obj: 1, Now: 7, How: "ok"}}},
+		// Wire finalization: not before both tokens are there; extra / missing URI; issued; W1: with two open Wire
+		// orders the tokens of order 0's challenges are filed under order 1: order 0 ready but never finalizable,
+		// order 1's own responses answer 500 (challenge valid), order 1 finalized with order 0's tokens
+		{Ops: []Op{{K: "n", IDs: wireIDs()}, {K: "w", Obj: 0, Now: 1, How: "ok"}, {K: "f", Now: 2, CSR: "match"}, {K: "w", Obj: 1, Now: 3, How: "ok"}, {K: "f", Now: 4, CSR: "extra"},
+			{K: "f", Now: 5, CSR: "missing"}, {K: "f", Acct: 1, Now: 6, CSR: "match"}, {K: "f", Now: 7, CSR: "match"}, {K: "f", Now: 8, CSR: "match"}, {K: "w", Obj: 1, Now: 9, How: "garbage"}}},
+		{Ops: []Op{{K: "n", IDs: wireIDs()}, {K: "n", Now: 1, IDs: wireIDs()}, {K: "w", Obj: 0, Now: 2, How: "ok"}, {K: "w", Obj: 1, Now: 3, How: "ok"}, {K: "f", Now: 4, CSR: "match"},
+			{K: "w", Obj: 2, Now: 5, How: "ok"}, {K: "w", Obj: 3, Now: 6, How: "ok"}, {K: "o", Obj: 1, Now: 7}, {K: "f", Obj: 1, Now: 8, CSR: "match"}, {K: "f", Now: 9, CSR: "match"}}},
 		{Ops: []Op{{K: "n", IDs: wireIDs()}, {K: "w", Obj: 0, Now: lifetime + 1, How: "ok"}, {K: "w", Obj: 1, Now: lifetime + 2, How: "ok"}, {K: "o", Now: lifetime + 3}}},
 		{Ops: []Op{{K: "n", IDs: wireIDs()}, {K: "w", Obj: 0, Now: 1, How: "ok", Deny: "a", DenyObj: 0}, {K: "w", Obj: 1, Now: 2, How: "ok", Deny: "o", DenyObj: 0}, {K: "w", Obj: 1, Now: 3, How: "dberr"}, {K: "o", Now: 4}}},
+		// faults inside new-order: each create write in turn (3 challenges, authorization, 2 challenges, authorization,
+		// order, none), then a working order whose objects are numbered after the leftovers; the index write
+		{Ops: []Op{{K: "n", IDs: []string{"dns:a.example.com", "ip:10.0.0.1"}, Deny: "x", DenyObj: 0}, {K: "n", Now: 1, IDs: []string{"dns:a.example.com", "ip:10.0.0.1"}, Deny: "x", DenyObj: 2},
+			{K: "n", Now: 2, IDs: []string{"dns:a.example.com", "ip:10.0.0.1"}, Deny: "x", DenyObj: 3}, {K: "n", Now: 3, IDs: []string{"dns:a.example.com", "ip:10.0.0.1"}, Deny: "x", DenyObj: 5},
+			{K: "n", Now: 4, IDs: []string{"dns:a.example.com", "ip:10.0.0.1"}, Deny: "x", DenyObj: 6}, {K: "n", Now: 5, IDs: []string{"dns:a.example.com", "ip:10.0.0.1"}, Deny: "x", DenyObj: 7},
+			{K: "n", Now: 6, IDs: []string{"dns:a.example.com", "ip:10.0.0.1"}, Deny: "x", DenyObj: 8}, {K: "l", Now: 7}, {K: "a", Obj: 0, Now: 8}, {K: "r", Obj: 0, Now: 9, How: "ok"}}},
+		{Ops: []Op{{K: "n", IDs: []string{"dns:a.example.com"}}, {K: "n", Now: lifetime + 1, IDs: []string{"dns:b.example.com"}, Deny: "i"}, {K: "o", Now: lifetime + 2}, {K: "l", Now: lifetime + 3},
+			{K: "n", Now: lifetime + 4, IDs: []string{"dns:b.example.com"}}, {K: "l", Now: lifetime + 5, Deny: "i"}, {K: "r", Obj: 2, Now: lifetime + 6, How: "ok"}, {K: "o", Obj: 1, Now: lifetime + 7},
+			{K: "l", Now: lifetime + 8, Deny: "i"}, {K: "l", Now: lifetime + 9}}},
+		// faults inside a Wire response: token write, index write
+		{Ops: []Op{{K: "n", IDs: wireIDs()}, {K: "w", Obj: 0, Now: 1, How: "ok", Deny: "k"}, {K: "w", Obj: 0, Now: 2, How: "ok"}, {K: "w", Obj: 1, Now: 3, How: "ok", Deny: "i"}, {K: "o", Now: 4},
+			{K: "f", Now: 5, CSR: "match"}}},
 		{Ops: []Op{{K: "n", IDs: []string{"dns:*.example.com"}}, {K: "r", Obj: 0, Now: 1, How: "dberr"}, ok(0, 2), {K: "n", Now: 3, IDs: nil}, {K: "n", Acct: 1, Now: 3, IDs: []string{"ip:fd00::1"}},
 			{K: "r", Acct: 1, Obj: 0, Now: 4, How: "ok"}, {K: "l", Acct: 0, Obj: 1, Now: 5}, {K: "o", Acct: 1, Obj: 0, Now: 6}, {K: "a", Acct: 0, Obj: 1, Now: 7}}},
 	}
@@ -1425,6 +1639,7 @@ func main() {
 	stage := flag.String("stage", "histories", "histories | conc (interleavings of requests on one order, see conc.go)")
 	names := flag.Bool("c13", false, "stage issued of C13: also evaluate C13's predicate on every issued certificate (names of the leaf = what the order's authorizations validated); adds permanent identifiers that begin with *.")
 	probe := flag.Int("probe-concurrent-finalize", 0, "not a check stage: run N rounds of two simultaneous finalize requests on one ready order and report how many orders ended with two certificates (C19 material)")
+	probeMig := flag.Bool("probe-migrated-challenges", false, "not a check stage: a provisioner restricted to the two Wire challenges, before and after the migration to the admin database (observation G1)")
 	flag.Parse()
 	if err := setup(); err != nil {
 		fmt.Fprintln(os.Stderr, "setup:", err)
@@ -1434,6 +1649,31 @@ func main() {
 	defer os.RemoveAll(shmDir)
 	if *probe > 0 {
 		probeConcurrentFinalize(*probe)
+		return
+	}
+	if *probeMig {
+		for _, migrated := range []bool{false, true} {
+			opts, _ := wireOptions()
+			spec := []acmeenv.ProvSpec{{Name: rprov, Tmpl: &provisioner.ACME{Type: "ACME", Name: rprov,
+				Challenges: []provisioner.ACMEChallenge{provisioner.WIREOIDC_01, provisioner.WIREDPOP_01}, Options: opts}}}
+			mk := acmeenv.New
+			if migrated {
+				mk = acmeenv.NewMigrated
+			}
+			e, err := mk(spec, nil)
+			if err != nil {
+				fmt.Println("acmeenv:", err)
+				continue
+			}
+			p := e.Provs[rprov]
+			fmt.Printf("migrated=%v configured=%v", migrated, p.Challenges)
+			for _, ct := range []provisioner.ACMEChallenge{provisioner.HTTP_01, provisioner.DNS_01, provisioner.TLS_ALPN_01, provisioner.DEVICE_ATTEST_01, provisioner.WIREOIDC_01, provisioner.WIREDPOP_01} {
+				fmt.Printf(" %s=%v", ct, p.IsChallengeEnabled(context.Background(), ct))
+			}
+			_, werr := p.GetOptions().GetWireOptions()
+			fmt.Printf(" wire-options-error=%v\n", werr)
+			e.Close()
+		}
 		return
 	}
 	o, err := c.NewOut(*out)
@@ -1463,30 +1703,49 @@ func main() {
 		}
 	}
 	if *stage == "router" {
-		var env *acmeenv.Env
-		used := 0
-		fresh := func() {
-			if env != nil {
-				env.Close()
+		// two environments: the provisioner from ca.json, and the same provisioner served from the
+		// admin database after the first enableAdmin start (ca.json -> linkedca -> provisioner)
+		envs := map[bool]*acmeenv.Env{}
+		used := map[bool]int{}
+		fresh := func(migrated bool) {
+			if envs[migrated] != nil {
+				envs[migrated].Close()
 			}
-			var err error
-			if env, err = acmeenv.New([]acmeenv.ProvSpec{{Name: rprov}}, nil); err != nil {
+			opts, err := wireOptions()
+			if err != nil {
+				fmt.Fprintln(os.Stderr, "wire options:", err)
+				os.Exit(2)
+			}
+			spec := []acmeenv.ProvSpec{{Name: rprov, Tmpl: &provisioner.ACME{Type: "ACME", Name: rprov,
+				Challenges:         []provisioner.ACMEChallenge{provisioner.HTTP_01, provisioner.DEVICE_ATTEST_01, provisioner.WIREOIDC_01, provisioner.WIREDPOP_01},
+				AttestationFormats: []provisioner.ACMEAttestationFormat{provisioner.STEP}, AttestationRoots: attRootPEM(), Options: opts}}}
+			mk := acmeenv.New
+			if migrated {
+				mk = acmeenv.NewMigrated
+			}
+			e, err := mk(spec, nil)
+			if err != nil {
 				fmt.Fprintln(os.Stderr, "acmeenv:", err)
 				os.Exit(2)
 			}
-			used = 0
+			envs[migrated], used[migrated] = e, 0
 		}
 		emitR := func(k *RCase) {
-			if env == nil || used >= 40 {
-				fresh() // a new stack now and then keeps the certificate table scan short
+			if *names {
+				k.Names = true
 			}
-			used++
-			line, impl := runRouter(env, k)
+			if envs[k.Migrated] == nil || used[k.Migrated] >= 40 {
+				fresh(k.Migrated) // a new stack now and then keeps the certificate table scan short
+			}
+			used[k.Migrated]++
+			line, impl := runRouter(envs[k.Migrated], k)
 			o.Case(line, impl)
 		}
 		defer func() {
-			if env != nil {
-				env.Close()
+			for _, e := range envs {
+				if e != nil {
+					e.Close()
+				}
 			}
 		}()
 		if *replay != "" {
@@ -1628,6 +1887,9 @@ func cornerNames() []*Case {
 		{Names: true, Ops: []Op{{K: "n", IDs: []string{"permanent-identifier:*.1234567"}}, {K: "t", Obj: 0, Az: 0, Key: 1, Now: 1, How: "ok"}, {K: "f", Now: 2, CSR: "match", Key: 1}}},
 		// C13-F2: the dns name of a mixed attested order is validated and then left out of the certificate
 		{Names: true, Ops: []Op{{K: "n", IDs: []string{"permanent-identifier:42", "dns:a.example.com"}}, {K: "t", Obj: 0, Az: 0, Key: 1, Now: 1, How: "ok"}, {K: "r", Obj: 2, Now: 2, How: "ok"}, {K: "f", Now: 3, CSR: "match", Key: 1}}},
+		// Wire: the leaf carries the two URIs and the display name; C13-F3: handle = client id, the CSR repeats the URI
+		{Names: true, Ops: []Op{{K: "n", IDs: wireIDs()}, {K: "w", Obj: 0, Now: 1, How: "ok"}, {K: "w", Obj: 1, Now: 2, How: "ok"}, {K: "f", Now: 3, CSR: "match"}}},
+		{Names: true, Ops: []Op{{K: "n", IDs: wireIDs(true)}, {K: "w", Obj: 0, Now: 1, How: "ok"}, {K: "w", Obj: 1, Now: 2, How: "ok"}, {K: "f", Now: 3, CSR: "match"}}},
 		{Names: true, Ops: []Op{{K: "n", IDs: []string{"dns:a.example.com", "dns:*.example.com", "ip:10.0.0.1"}}, {K: "r", Obj: 0, Now: 1, How: "ok"}, {K: "r", Obj: 3, Now: 2, How: "ok"}, {K: "r", Obj: 4, Now: 3, How: "ok"},
 			{K: "f", Now: 4, CSR: "match"}}},
 	}
